@@ -1233,10 +1233,19 @@ func defineStringExpression() {
 					// parser already points to next token
 					curToken = p.current
 
-					// safely call next because this should always be a string
-					p.next()
-
 					missingEnd = true
+
+					// The expression must be followed by the remainder of the string literal.
+					// This is not the case if the expression itself contains a string template,
+					// which is not supported by the lexer.
+					// Keep the alternating structure of literals and values, and report the missing end
+					if !curToken.Is(lexer.TokenString) {
+						literals = append(literals, "")
+						break
+					}
+
+					// safely call next because this is a string
+					p.next()
 				} else {
 					// If the next token is not a string template,
 					// then we are done with parsing the string literal
